@@ -24,6 +24,9 @@ RULE += (
     ' is returned also when parsing is off; the right-checksum twin through the static parser as bytearray'
     ' with validation on.'
 )
+RULE += (
+    " Also: UBX items of 256..900 bytes quoting RTCM material."
+)
 ASSUMPTIONS = ["checksum-only damage: the three CRC bytes are replaced by a different value; header and payload intact"]
 GATES = ["settings_compared", "validate0_twin_checked", "parsed_false_checked", "offsets_compared",
          "static_validate0_checked", "seekable_backend", "plain_backend"]
@@ -73,7 +76,7 @@ def make(rng, with_damage):
         elif k < 0.7:
             items.append(("nmea", streams.nmea(rng), None))
         elif k < 0.85:
-            items.append(("ubx", streams.ubx(rng, 120), None))
+            items.append(("ubx", streams.ubx_quote(rng) if rng.random() < 0.3 else streams.ubx(rng, 120), None))
         else:
             items.append(("noise", streams.inert_noise(rng), None))
     return items
